@@ -26,11 +26,14 @@ impl GraphIndex {
     }
 
     pub fn as_u64(&self) -> u64 {
-        if self.is_edge() {
-            (-self.0) as u64
-        } else {
-            self.0 as u64
-        }
+        self.0.unsigned_abs()
+    }
+
+    // Switches a stored value between node and edge index. The value
+    // `i64::MIN` (a graph element can hold it only in a damaged file)
+    // cannot be negated and maps to an index outside of any graph.
+    fn negated(value: i64) -> Self {
+        Self(value.wrapping_neg())
     }
 }
 
@@ -550,11 +553,11 @@ where
     }
 
     pub fn edge_from(&self, storage: &Storage<D>, index: GraphIndex) -> GraphIndex {
-        GraphIndex::from(-self.data.from(storage, index).unwrap_or_default())
+        GraphIndex::negated(self.data.from(storage, index).unwrap_or_default())
     }
 
     pub fn edge_to(&self, storage: &Storage<D>, index: GraphIndex) -> GraphIndex {
-        GraphIndex::from(-self.data.to(storage, index).unwrap_or_default())
+        GraphIndex::negated(self.data.to(storage, index).unwrap_or_default())
     }
 
     pub fn first_edge_from(
@@ -562,7 +565,7 @@ where
         storage: &Storage<D>,
         index: GraphIndex,
     ) -> Result<GraphIndex, DbError> {
-        Ok(GraphIndex::from(-self.data.from(storage, index)?))
+        Ok(GraphIndex::negated(self.data.from(storage, index)?))
     }
 
     pub fn first_edge_to(
@@ -570,7 +573,7 @@ where
         storage: &Storage<D>,
         index: GraphIndex,
     ) -> Result<GraphIndex, DbError> {
-        Ok(GraphIndex::from(-self.data.to(storage, index)?))
+        Ok(GraphIndex::negated(self.data.to(storage, index)?))
     }
 
     pub fn insert_edge(
@@ -627,6 +630,16 @@ where
 
     pub fn node_count(&self, storage: &Storage<D>) -> Result<u64, DbError> {
         self.data.node_count(storage)
+    }
+
+    // Guards the searches' visited sets against an index that
+    // lies outside of the graph (only possible in a damaged file).
+    pub(crate) fn validate_bounds(&self, index: GraphIndex) -> Result<(), DbError> {
+        if self.data.capacity()? <= index.as_u64() {
+            return Err(Self::invalid_index(index));
+        }
+
+        Ok(())
     }
 
     #[allow(dead_code)]
@@ -738,7 +751,7 @@ where
         storage: &Storage<D>,
         index: GraphIndex,
     ) -> Result<GraphIndex, DbError> {
-        Ok(GraphIndex::from(-self.data.from_meta(storage, index)?))
+        Ok(GraphIndex::negated(self.data.from_meta(storage, index)?))
     }
 
     pub(crate) fn next_edge_to(
@@ -746,7 +759,7 @@ where
         storage: &Storage<D>,
         index: GraphIndex,
     ) -> Result<GraphIndex, DbError> {
-        Ok(GraphIndex::from(-self.data.to_meta(storage, index)?))
+        Ok(GraphIndex::negated(self.data.to_meta(storage, index)?))
     }
 
     fn edge_count_from(&self, storage: &Storage<D>, index: GraphIndex) -> Result<i64, DbError> {
